@@ -1322,6 +1322,14 @@ def main(repo: str, outdir: str, dry: bool = False) -> int:
         return (HEADER + "import Optyx.Py.BuildSupport\n\nset_option linter.unusedVariables false\n\n"
                 "namespace Optyx.Generated\nopen Optyx Optyx.Py\n\n" + body + "\nend Optyx.Generated\n")
 
+    def f_hookshape():
+        import py2lean_post
+        try:
+            body = py2lean_post.gen_hook_shape(src("solvers/scipy_solver.py"))
+        except py2lean_post.TranslateError as e:
+            raise TranslateError(str(e))
+        return HEADER + "namespace Optyx.Generated\n\n" + body + "\nend Optyx.Generated\n"
+
     def f_lpfast():
         import py2lean_lpfast
         try:
@@ -1382,7 +1390,7 @@ def main(repo: str, outdir: str, dry: bool = False) -> int:
                         ("ApiGlue", f_apiglue), ("LPGlue", f_lpglue), ("SortGlue", f_sort),
                         ("DegreeStep", f_degstep), ("GradStep", f_gradstep), ("LPStep", f_lpstep), ("JacRowVec", f_jacrowvec),
                         ("ScipyPost", f_scipypost), ("ProblemEdit", f_problemedit),
-                        ("ConstraintFns", f_constraintfns), ("SvsStep", f_svs), ("BuildStep", f_buildstep), ("Operators", f_operators), ("GradIterCtl", f_graditer), ("LPFast", f_lpfast)):
+                        ("ConstraintFns", f_constraintfns), ("SvsStep", f_svs), ("BuildStep", f_buildstep), ("Operators", f_operators), ("GradIterCtl", f_graditer), ("LPFast", f_lpfast), ("HookShape", f_hookshape)):
         path = os.path.join(outdir, fname + ".lean")
         try:
             text = make()
